@@ -119,6 +119,16 @@ def judge(ctx, cases):
         c["id"] = k + 1
     rows = fncommon.observe(ctx, "spline", cases, "spl", nproc=8)
     viols = fncommon.validate(ctx, rows, "Val_C16", "spl", nshards=12, env={"VH_KS": KS}, timeout=1500)
+    # design level (drift, not a violation): the sweeps of module SplineSweep over doubles on the recorded data; its pieces
+    # must agree with the values and slopes the real spline returned inside every piece, within the contract's rounding allowance
+    drows = [{k: r[k] for k in ("id", "kind", "cx", "xs", "ys", "f0", "fn", "err_case", "obs")} for r in rows]
+    ndrift = len(ctx.drift)
+    fncommon.validate(ctx, drows, "Trace_Spline", "spldl", nshards=12, env={"VH_KS": KS}, timeout=1500)
+    ctx.traces -= len(drows)
+    st = [x for x in ctx.notes.get("_stat", []) if x and x[0] == "spline_runs_explained"]
+    ctx.notes["_stat"] = [x for x in ctx.notes.get("_stat", []) if not (x and x[0] == "spline_runs_explained")]
+    for key, v in (("validated_against_design", len(drows)), ("explained", sum(x[1] for x in st)), ("drifted", len(ctx.drift) - ndrift)):
+        ctx.notes["spline_runs_%s" % key] = ctx.notes.get("spline_runs_%s" % key, 0) + v
     for c in cases:
         xs = [vlib.pair_to_float(x) for x in c["xs"]]
         hs = [b - a for a, b in zip(xs, xs[1:])]
